@@ -314,7 +314,9 @@ pub fn c15_request_side(cc: &CutCase) -> Verdict {
     let mut g = Good::trivial();
     let mut runs = 0u64;
     let mut inside = false;
-    let ks: Vec<usize> = if cc.every || n <= 400 {
+    // (every prefix for streams up to 2500 bytes; beyond that the region boundaries and a sample: a
+    // case must stay well below the progress watchdog also on a loaded machine)
+    let ks: Vec<usize> = if (cc.every && n <= 2500) || n <= 400 {
         (0..=n).collect()
     } else {
         let mut v: Vec<usize> = vec![0, n];
@@ -326,7 +328,7 @@ pub fn c15_request_side(cc: &CutCase) -> Verdict {
                 }
             }
         }
-        v.extend((0..n).step_by((n / 64).max(1)));
+        v.extend((0..n).step_by((n / if cc.every { 400 } else { 64 }).max(1)));
         v.sort();
         v.dedup();
         v
